@@ -13,6 +13,8 @@ def check(model: Model, run: Run) -> None:
     from .c01 import purity, written_as_held
     purity(model, run, None)             # the bytes are a function of the message alone (no cache keyed on something coarser)
     written_as_held(model, run)
+    from ..tlvcheck import string_encoding_defaults
+    string_encoding_defaults(model, run, "B13-ldapstring-is-utf8-by-default")
     ex = extracted(model)
     run.explanation = ("the TLV grammar each writer (pack/_pack_inner/get_value) can emit is extracted by abstract interpretation of the writer idiom "
                        "(tags constant-folded, asn1.py's own defaults read from asn1.py) and compared component by component with an independent transcription "
